@@ -164,6 +164,48 @@ class CFG:
                 stack.pop()
         return list(reversed(post))
 
+    def postdominators(self):
+        """pdom[b] = blocks that lie on every path from b to a normal exit (return); blocks that
+        cannot reach a return (diverging) post-dominate nothing but themselves"""
+        if getattr(self, "_pdom", None) is not None:
+            return self._pdom
+        exits = set(self.return_blocks())
+        can_exit = self.backward_reach(exits)
+        nodes = [b for b in self.reach() if b in can_exit]
+        allset = set(nodes)
+        pdom = {b: (set([b]) if b in exits else set(allset)) for b in nodes}
+        changed = True
+        while changed:
+            changed = False
+            for b in nodes:
+                if b in exits:
+                    continue
+                ss = [pdom[e[1]] for e in self.succ[b] if e[1] in pdom]
+                if not ss:
+                    continue
+                new = set.intersection(*ss) | {b}
+                if new != pdom[b]:
+                    pdom[b] = new
+                    changed = True
+        self._pdom = pdom
+        return pdom
+
+    def control_switches(self, block):
+        """switch blocks S on which `block` is directly control dependent: some successor X of S
+        is post-dominated by `block` (or is it) while S itself is not"""
+        pdom = self.postdominators()
+        out = []
+        for s in range(self.n):
+            t = self.body.blocks[s].term
+            if t is None or t.k != "switch" or s not in pdom:
+                continue
+            if block in pdom[s] and s != block:
+                continue
+            edges = [e for e in self.succ[s] if e[1] in pdom and (e[1] == block or block in pdom[e[1]])]
+            if edges:
+                out.append((s, edges))
+        return out
+
     def edge_dominates(self, edge, block):
         """every path entry -> block uses `edge`"""
         return block not in self.reach((0,), {edge})
